@@ -633,3 +633,433 @@ Qed.
 Theorem check_range_spec R first last :
   check_range R first last = true <-> (first <= last /\ last < R)%nat.
 Proof. unfold check_range. rewrite !andb_true_iff, !Nat.ltb_lt, Nat.leb_le. lia. Qed.
+
+(* ---- C05: rows of the weight matrices belong to the mapped filter ------------------------------------ *)
+Close Scope Q_scope.
+
+Lemma set_rows_length mask w (M : matrix) : length mask = length M -> length (set_rows mask w M) = length M.
+Proof. intros H. unfold set_rows. rewrite map_length, combine_length. lia. Qed.
+
+Lemma nth_set_rows mask w (M : matrix) j : length mask = length M ->
+  nth j (set_rows mask w M) [] = if nth j mask false then w else nth j M [].
+Proof.
+  intros H. unfold set_rows.
+  pose proof (map_nth (fun br : bool * list Q => if fst br then w else snd br) (combine mask M) (false, []) j) as Hm.
+  change ((fun br : bool * list Q => if fst br then w else snd br) (false, [])) with (@nil Q) in Hm.
+  rewrite Hm, combine_nth by exact H. reflexivity.
+Qed.
+
+Lemma znth_nil {A} k : @znth A k [] = None.
+Proof. unfold znth. destruct (Z.ltb k 0); [reflexivity|]. destruct (Z.to_nat k); reflexivity. Qed.
+
+Lemma znth_snoc {A} k (pre : list A) m :
+  znth k (pre ++ [m]) = if Z.eqb k (Z.of_nat (length pre)) then Some m else znth k pre.
+Proof.
+  unfold znth. destruct (Z.ltb_spec k 0) as [Hneg|Hnn].
+  - destruct (Z.eqb_spec k (Z.of_nat (length pre))); [lia | reflexivity].
+  - destruct (Z.eqb_spec k (Z.of_nat (length pre))) as [E|E].
+    + rewrite E, Nat2Z.id, nth_error_app2, Nat.sub_diag by lia. reflexivity.
+    + destruct (Nat.lt_ge_cases (Z.to_nat k) (length pre)) as [Hlt|Hge].
+      * apply nth_error_app1. exact Hlt.
+      * assert (Hgt : (length pre < Z.to_nat k)%nat) by lia.
+        rewrite (proj2 (nth_error_None pre (Z.to_nat k))) by lia.
+        apply nth_error_None. rewrite app_length. cbn. lia.
+Qed.
+
+Definition rows_inv (cfg : config) objs cns (fm : list Z) (rows : nat) (pre : list method) (M : matrix) : Prop :=
+  length M = rows /\
+  forall j, (j < rows)%nat ->
+    match znth (nth j fm (-1)%Z) pre with
+    | Some m => get_weights cfg m objs cns = Ok (nth j M [])
+    | None => nth j M [] = c_rw cfg
+    end.
+
+Lemma rows_inv_init cfg objs cns fm rows : rows_inv cfg objs cns fm rows [] (repeat (c_rw cfg) rows).
+Proof.
+  split; [apply repeat_length|]. intros j Hj. rewrite znth_nil. apply nth_repeat_any. exact Hj.
+Qed.
+
+Lemma rows_inv_step cfg objs cns fm rows pre m M X :
+  length fm = rows -> rows_inv cfg objs cns fm rows pre M ->
+  (X = M /\ (forall j, (j < rows)%nat -> Z.eqb (Z.of_nat (length pre)) (nth j fm (-1)%Z) = false)) \/
+  (exists w, get_weights cfg m objs cns = Ok w /\ X = set_rows (map (Z.eqb (Z.of_nat (length pre))) fm) w M) ->
+  rows_inv cfg objs cns fm rows (pre ++ [m]) X.
+Proof.
+  intros HF [HL HI] [[-> Hno]|[w [Hw ->]]].
+  - split; [exact HL|]. intros j Hj. rewrite znth_snoc.
+    rewrite Z.eqb_sym, (Hno j Hj). apply HI; exact Hj.
+  - assert (Hml : length (map (Z.eqb (Z.of_nat (length pre))) fm) = length M) by (rewrite map_length; lia).
+    split; [rewrite set_rows_length by exact Hml; exact HL|].
+    intros j Hj. rewrite znth_snoc, nth_set_rows by exact Hml.
+    pose proof (map_nth (Z.eqb (Z.of_nat (length pre))) fm (-1)%Z j) as Hm.
+    assert (Hd : Z.eqb (Z.of_nat (length pre)) (-1)%Z = false) by (apply Z.eqb_neq; lia).
+    rewrite (nth_indep _ false (Z.of_nat (length pre) =? -1)%Z) by (rewrite map_length; lia).
+    rewrite Hm, (Z.eqb_sym (nth j fm (-1)%Z)).
+    destruct (Z.eqb (Z.of_nat (length pre)) (nth j fm (-1)%Z)); [exact Hw | apply HI; exact Hj].
+Qed.
+
+Lemma none_applies_some idx fm :
+  none_applies (applies (Some fm) idx) = true -> forall j, (j < length fm)%nat -> Z.eqb idx (nth j fm (-1)%Z) = false.
+Proof.
+  cbn [applies option_map none_applies]. intros H j Hj. apply negb_true_iff in H.
+  destruct (Z.eqb idx (nth j fm (-1)%Z)) eqn:E; [|reflexivity].
+  assert (Hex : existsb (fun b : bool => b) (map (Z.eqb idx) fm) = true).
+  { apply existsb_exists. exists true. split; [|reflexivity].
+    apply in_map_iff. exists (nth j fm (-1)%Z). split; [exact E | apply nth_In; exact Hj]. }
+  congruence.
+Qed.
+
+Lemma idx_succ {A} (pre : list A) m : (Z.of_nat (length pre) + 1)%Z = Z.of_nat (length (pre ++ [m])).
+Proof. rewrite app_length. cbn [length]. lia. Qed.
+
+Lemma filter_loop_rows_obj cfg objs cns fm cfm :
+  length fm = length (c_ow cfg) ->
+  forall filters pre ow cw ow' cw',
+  rows_inv cfg objs cns fm (length (c_ow cfg)) pre (default_matrix ow (length (c_ow cfg)) (c_rw cfg)) ->
+  filter_loop cfg filters (Z.of_nat (length pre)) (Some fm) cfm objs cns ow cw = Ok (ow', cw') ->
+  rows_inv cfg objs cns fm (length (c_ow cfg)) (pre ++ filters) (default_matrix ow' (length (c_ow cfg)) (c_rw cfg)).
+Proof.
+  intros HF. induction filters as [|m rest IH]; intros pre ow cw ow' cw' Hinv Hrun.
+  - cbn [filter_loop] in Hrun. injection Hrun as <- <-. rewrite app_nil_r. exact Hinv.
+  - cbn [filter_loop] in Hrun.
+    replace (pre ++ m :: rest) with ((pre ++ [m]) ++ rest) by (rewrite <- app_assoc; reflexivity).
+    rewrite (idx_succ pre m) in Hrun.
+    destruct (none_applies (applies (Some fm) (Z.of_nat (length pre))) &&
+              none_applies (applies cfm (Z.of_nat (length pre)))) eqn:Hskip.
+    + apply andb_true_iff in Hskip as [Hs _].
+      apply (IH (pre ++ [m]) ow cw ow' cw'); [|exact Hrun].
+      apply (rows_inv_step cfg objs cns fm _ pre m _ _ HF Hinv). left. split; [reflexivity|].
+      intros j Hj. apply (none_applies_some _ _ Hs). lia.
+    + destruct (get_weights cfg m objs cns) as [w| |] eqn:Hw; try discriminate.
+      cbn [applies option_map] in Hrun.
+      eapply (IH (pre ++ [m])); [|exact Hrun].
+      cbn [default_matrix].
+      apply (rows_inv_step cfg objs cns fm _ pre m _ _ HF Hinv). right. exists w. split; [exact Hw | reflexivity].
+Qed.
+
+Theorem filtered_rows_objectives cfg filters fm cfm objs cns ow cw :
+  length fm = length (c_ow cfg) ->
+  filtered_weights cfg filters (Some fm) cfm objs cns = Ok (ow, cw) ->
+  forall j, (j < length fm)%nat ->
+    match znth (nth j fm (-1)%Z) filters with
+    | Some m => get_weights cfg m objs cns = Ok (nth j (default_matrix ow (length (c_ow cfg)) (c_rw cfg)) [])
+    | None => nth j (default_matrix ow (length (c_ow cfg)) (c_rw cfg)) [] = c_rw cfg
+    end.
+Proof.
+  intros HF Hrun j Hj. unfold filtered_weights in Hrun.
+  pose proof (filter_loop_rows_obj cfg objs cns fm cfm HF filters [] None None ow cw
+                (rows_inv_init cfg objs cns fm _) Hrun) as [_ H].
+  apply H. lia.
+Qed.
+
+Lemma filter_loop_rows_con cfg objs cns ofm fm :
+  length fm = length (c_lower cfg) ->
+  forall filters pre ow cw ow' cw',
+  rows_inv cfg objs cns fm (length (c_lower cfg)) pre (default_matrix cw (length (c_lower cfg)) (c_rw cfg)) ->
+  filter_loop cfg filters (Z.of_nat (length pre)) ofm (Some fm) objs cns ow cw = Ok (ow', cw') ->
+  rows_inv cfg objs cns fm (length (c_lower cfg)) (pre ++ filters) (default_matrix cw' (length (c_lower cfg)) (c_rw cfg)).
+Proof.
+  intros HF. induction filters as [|m rest IH]; intros pre ow cw ow' cw' Hinv Hrun.
+  - cbn [filter_loop] in Hrun. injection Hrun as <- <-. rewrite app_nil_r. exact Hinv.
+  - cbn [filter_loop] in Hrun.
+    replace (pre ++ m :: rest) with ((pre ++ [m]) ++ rest) by (rewrite <- app_assoc; reflexivity).
+    rewrite (idx_succ pre m) in Hrun.
+    destruct (none_applies (applies ofm (Z.of_nat (length pre))) &&
+              none_applies (applies (Some fm) (Z.of_nat (length pre)))) eqn:Hskip.
+    + apply andb_true_iff in Hskip as [_ Hs].
+      apply (IH (pre ++ [m]) ow cw ow' cw'); [|exact Hrun].
+      apply (rows_inv_step cfg objs cns fm _ pre m _ _ HF Hinv). left. split; [reflexivity|].
+      intros j Hj. apply (none_applies_some _ _ Hs). lia.
+    + destruct (get_weights cfg m objs cns) as [w| |] eqn:Hw; try discriminate.
+      cbn [applies option_map] in Hrun.
+      eapply (IH (pre ++ [m])); [|exact Hrun].
+      cbn [default_matrix].
+      apply (rows_inv_step cfg objs cns fm _ pre m _ _ HF Hinv). right. exists w. split; [exact Hw | reflexivity].
+Qed.
+
+Theorem filtered_rows_constraints cfg filters ofm fm objs cns ow cw :
+  length fm = length (c_lower cfg) ->
+  filtered_weights cfg filters ofm (Some fm) objs cns = Ok (ow, cw) ->
+  forall j, (j < length fm)%nat ->
+    match znth (nth j fm (-1)%Z) filters with
+    | Some m => get_weights cfg m objs cns = Ok (nth j (default_matrix cw (length (c_lower cfg)) (c_rw cfg)) [])
+    | None => nth j (default_matrix cw (length (c_lower cfg)) (c_rw cfg)) [] = c_rw cfg
+    end.
+Proof.
+  intros HF Hrun j Hj. unfold filtered_weights in Hrun.
+  pose proof (filter_loop_rows_con cfg objs cns ofm fm HF filters [] None None ow cw
+                (rows_inv_init cfg objs cns fm _) Hrun) as [_ H].
+  apply H. lia.
+Qed.
+
+(* without a filter map nothing is filtered *)
+Lemma filter_loop_no_map_obj cfg cfm objs cns : forall filters idx ow cw ow' cw',
+  filter_loop cfg filters idx None cfm objs cns ow cw = Ok (ow', cw') -> ow' = ow.
+Proof.
+  induction filters as [|m rest IH]; intros idx ow cw ow' cw' H; cbn [filter_loop] in H.
+  - injection H as <- _. reflexivity.
+  - destruct (_ && _); [exact (IH _ _ _ _ _ H)|].
+    destruct (get_weights cfg m objs cns); try discriminate. cbn [applies option_map] in H. exact (IH _ _ _ _ _ H).
+Qed.
+
+Lemma filter_loop_no_map_con cfg ofm objs cns : forall filters idx ow cw ow' cw',
+  filter_loop cfg filters idx ofm None objs cns ow cw = Ok (ow', cw') -> cw' = cw.
+Proof.
+  induction filters as [|m rest IH]; intros idx ow cw ow' cw' H; cbn [filter_loop] in H.
+  - injection H as _ <-. reflexivity.
+  - destruct (_ && _); [exact (IH _ _ _ _ _ H)|].
+    destruct (get_weights cfg m objs cns); try discriminate. cbn [applies option_map] in H. exact (IH _ _ _ _ _ H).
+Qed.
+
+(* ---- rejection at construction ------------------------------------------------------------------------ *)
+Lemma create_sort_objective cfg sort first last :
+  create cfg (SortObjective sort first last) =
+    if check_range (length (c_rw cfg)) first last then Ok tt else Raise "ConfigError".
+Proof. reflexivity. Qed.
+
+Lemma create_sort_constraint cfg sort first last :
+  create cfg (SortConstraint sort first last) =
+    if check_range (length (c_rw cfg)) first last then Ok tt else Raise "ConfigError".
+Proof. reflexivity. Qed.
+
+Lemma create_never_aborts cfg m c : create cfg m <> Abort c.
+Proof. destruct m; cbn; destruct (_ : bool); discriminate. Qed.
+
+Lemma create_all_rejects cfg filters m s : In m filters -> create cfg m = Raise s ->
+  exists s', create_all cfg filters = Raise s'.
+Proof.
+  induction filters as [|x t IH]; intros Hin Hm; [contradiction|]. cbn [create_all].
+  destruct Hin as [->|Hin].
+  - rewrite Hm. eexists; reflexivity.
+  - destruct (create cfg x) as [[]|c|s0] eqn:E.
+    + apply IH; assumption.
+    + exfalso. exact (create_never_aborts cfg x c E).
+    + eexists; reflexivity.
+Qed.
+
+(* a filter that is rejected at construction prevents every evaluation *)
+Theorem evaluate_rejects cfg filters ofm cfm rmin objs cns m s :
+  In m filters -> create cfg m = Raise s ->
+  exists s', evaluate cfg filters ofm cfm rmin objs cns = Raise s'.
+Proof.
+  intros Hin Hm. destruct (create_all_rejects cfg filters m s Hin Hm) as [s' E].
+  exists s'. unfold evaluate. rewrite E. reflexivity.
+Qed.
+
+(* ---- sort filter outcome -------------------------------------------------------------------------------- *)
+Theorem sort_outcome cfg values failed first last (m : method) objs cns :
+  method_weights cfg m objs cns = Some (sort_and_select values (c_rw cfg) failed first last) ->
+  length failed = length values -> length (c_rw cfg) = length failed ->
+  ((exists r, selected values failed first last r = true /\ (0 < nth r (c_rw cfg) 0)%Q) /\
+   get_weights cfg m objs cns = Ok (sort_and_select values (c_rw cfg) failed first last)) \/
+  (~ (exists r, selected values failed first last r = true /\ (0 < nth r (c_rw cfg) 0)%Q) /\
+   get_weights cfg m objs cns = Abort too_few).
+Proof.
+  intros Hm HL HC. rewrite get_weights_unfold, Hm.
+  destruct (any_positive (sort_and_select values (c_rw cfg) failed first last)) eqn:E.
+  - left. split; [|reflexivity]. apply (sort_any_positive values (c_rw cfg) failed first last HL HC). exact E.
+  - right. split; [|reflexivity]. intro H. apply (sort_any_positive values (c_rw cfg) failed first last HL HC) in H. congruence.
+Qed.
+
+(* ---- C04: ranking direction of the objective flavour ------------------------------------------------------ *)
+Lemma cvar_objective_key_nth cfg sort objs r : (r < length objs)%nat ->
+  nth r (cvar_objective_keys cfg sort objs) 0%Q = (- objective_key (c_ow cfg) sort (nth r objs []))%Q.
+Proof.
+  intros H. unfold cvar_objective_keys.
+  rewrite (nth_indep _ 0%Q ((fun row => (- objective_key (c_ow cfg) sort row)%Q) [])) by (rewrite map_length; exact H).
+  pose proof (map_nth (fun row => (- objective_key (c_ow cfg) sort row)%Q) objs [] r) as Hm. cbn beta in Hm.
+  exact Hm.
+Qed.
+
+Lemma cvar_constraint_key_nth cfg sort c r : (r < length c)%nat ->
+  nth r (cvar_constraint_keys cfg sort c) 0%Q =
+    (- badness (nth sort (c_lower cfg) NInf) (nth sort (c_upper cfg) PInf) (nan0 (nth sort (nth r c []) None)))%Q.
+Proof.
+  intros H. unfold cvar_constraint_keys, constraint_col. rewrite map_map.
+  set (g := fun row : list oQ => (- badness (nth sort (c_lower cfg) NInf) (nth sort (c_upper cfg) PInf) (nan0 (nth sort row None)))%Q).
+  rewrite (nth_indep _ 0%Q (g [])) by (rewrite map_length; exact H).
+  exact (map_nth g c [] r).
+Qed.
+
+(* ---- positions under ANY valid tie order ------------------------------------------------------------------- *)
+Lemma countb_perm {A} (P : A -> bool) l l' : Permutation l l' -> countb P l = countb P l'.
+Proof. intros H. unfold countb. apply Permutation_length, Permutation_filter, H. Qed.
+
+Lemma countb_app {A} (P : A -> bool) a b : countb P (a ++ b) = (countb P a + countb P b)%nat.
+Proof. unfold countb. rewrite filter_app, app_length. reflexivity. Qed.
+
+Lemma countb_le_length {A} (P : A -> bool) l : (countb P l <= length l)%nat.
+Proof. unfold countb. induction l as [|x t IH]; cbn; [lia|]. destruct (P x); cbn; lia. Qed.
+
+Lemma countb_all {A} (P : A -> bool) l : (forall x, In x l -> P x = true) -> countb P l = length l.
+Proof. intros H. unfold countb. rewrite filter_all by exact H. reflexivity. Qed.
+
+Lemma countb_none {A} (P : A -> bool) l : (forall x, In x l -> P x = false) -> countb P l = 0%nat.
+Proof. intros H. unfold countb. rewrite filter_none by exact H. reflexivity. Qed.
+
+Lemma countb_mono {A} (P Q : A -> bool) l : (forall x, In x l -> P x = true -> Q x = true) -> (countb P l <= countb Q l)%nat.
+Proof.
+  unfold countb. induction l as [|x t IH]; intros H; cbn; [lia|].
+  assert (IH' : (length (filter P t) <= length (filter Q t))%nat) by (apply IH; intros y Hy; apply H; right; exact Hy).
+  destruct (P x) eqn:Px.
+  - rewrite (H x (or_introl eq_refl) Px). cbn. lia.
+  - destruct (Q x); cbn; lia.
+Qed.
+
+Lemma countb_union {A} (P Q1 Q2 : A -> bool) l :
+  (forall x, In x l -> P x = true -> Q1 x = true \/ Q2 x = true) -> (countb P l <= countb Q1 l + countb Q2 l)%nat.
+Proof.
+  unfold countb. induction l as [|x t IH]; intros H; cbn; [lia|].
+  assert (IH' : (length (filter P t) <= length (filter Q1 t) + length (filter Q2 t))%nat)
+    by (apply IH; intros y Hy; apply H; right; exact Hy).
+  destruct (P x) eqn:Px.
+  - destruct (H x (or_introl eq_refl) Px) as [E|E]; rewrite E; destruct (Q1 x), (Q2 x); cbn; lia.
+  - destruct (Q1 x), (Q2 x); cbn; lia.
+Qed.
+
+Lemma countb_ext {A} (P Q : A -> bool) l : (forall x, In x l -> P x = Q x) -> countb P l = countb Q l.
+Proof. intros H. unfold countb. rewrite (filter_ext_in P Q l H). reflexivity. Qed.
+
+Lemma split_nth {A} (l : list A) k d : (k < length l)%nat -> l = firstn k l ++ nth k l d :: skipn (S k) l.
+Proof.
+  revert k; induction l as [|x t IH]; intros k H; cbn in H; [lia|].
+  destruct k as [|k].
+  - rewrite firstn_O, skipn_cons, skipn_O. reflexivity.
+  - rewrite firstn_cons, skipn_cons. cbn [nth app]. f_equal. apply IH. lia.
+Qed.
+
+Lemma In_firstn_nth {A} (l : list A) k d y : In y (firstn k l) -> exists i, (i < k)%nat /\ (i < length l)%nat /\ nth i l d = y.
+Proof.
+  intros H. apply (In_nth _ _ d) in H as [i [Hi E]]. rewrite firstn_length in Hi.
+  exists i. repeat split; try lia. rewrite nth_firstn_lt in E by lia. exact E.
+Qed.
+
+Lemma In_skipn_nth {A} (l : list A) k d y : In y (skipn k l) -> exists j, (k <= j)%nat /\ (j < length l)%nat /\ nth j l d = y.
+Proof.
+  intros H. apply (In_nth _ _ d) in H as [i [Hi E]]. rewrite skipn_length in Hi.
+  exists (k + i)%nat. repeat split; try lia. rewrite nth_skipn_add in E. exact E.
+Qed.
+
+Lemma valid_order_length values failed idx : valid_order values failed idx -> length idx = length (successes failed).
+Proof. intros [H _]. apply Permutation_length, H. Qed.
+
+(* in every valid order the position of a realization lies between the number of strictly smaller successful values
+   and the number of smaller-or-equal ones *)
+Lemma position_bounds values failed idx k : valid_order values failed idx -> (k < length idx)%nat ->
+  (grp_lo values failed (nth k idx 0%nat) <= k < grp_ge values failed (nth k idx 0%nat))%nat.
+Proof.
+  intros [HP HS] Hk. unfold grp_lo, grp_ge.
+  rewrite <- !(countb_perm _ _ _ HP). set (r := nth k idx 0%nat).
+  rewrite (split_nth idx k 0%nat Hk) at 1 2. fold r. rewrite !countb_app.
+  change (r :: skipn (S k) idx) with ([r] ++ skipn (S k) idx). rewrite !countb_app.
+  assert (Hfl : length (firstn k idx) = k) by (rewrite firstn_length; lia).
+  split.
+  - (* strictly smaller values only occur before position k *)
+    rewrite (countb_none _ (skipn (S k) idx)).
+    2:{ intros y Hy. apply (In_skipn_nth idx (S k) 0%nat) in Hy as [j [Hj [Hjl <-]]].
+        apply Qltb_nlt. pose proof (HS k j ltac:(lia)) as Hle. fold r in Hle. lra. }
+    assert (Hr : countb (fun s => Qltb (nth s values 0%Q) (nth r values 0%Q)) [r] = 0%nat).
+    { apply countb_none. intros y [<-|[]]. apply Qltb_nlt. lra. }
+    rewrite Hr. pose proof (countb_le_length (fun s => Qltb (nth s values 0%Q) (nth r values 0%Q)) (firstn k idx)). lia.
+  - (* everything up to position k is smaller or equal *)
+    rewrite (countb_all _ (firstn k idx)).
+    2:{ intros y Hy. apply (In_firstn_nth idx k 0%nat) in Hy as [i [Hi [Hil <-]]].
+        apply Qleb_le. pose proof (HS i k ltac:(lia)) as Hle. fold r in Hle. exact Hle. }
+    assert (Hr : countb (fun s => Qleb (nth s values 0%Q) (nth r values 0%Q)) [r] = 1%nat).
+    { apply (countb_all _ [r]). intros y [<-|[]]. apply Qleb_le. lra. }
+    rewrite Hr, Hfl. lia.
+Qed.
+
+Lemma ranked_valid_order failed values : length failed = length values ->
+  valid_order values failed (ranked failed values).
+Proof.
+  intros HL. split; [apply ranked_perm; exact HL|]. intros i j Hij. apply ranked_values_le; assumption.
+Qed.
+
+Lemma grp_lo_ext values failed r s : (nth s values 0 == nth r values 0)%Q -> grp_lo values failed s = grp_lo values failed r.
+Proof.
+  intros E. unfold grp_lo. apply countb_ext. intros x _.
+  destruct (Qltb (nth x values 0%Q) (nth r values 0%Q)) eqn:H.
+  - apply Qltb_lt in H. apply Qltb_lt. lra.
+  - apply Qltb_nlt in H. apply Qltb_nlt. lra.
+Qed.
+
+Lemma grp_ge_ext values failed r s : (nth s values 0 == nth r values 0)%Q -> grp_ge values failed s = grp_ge values failed r.
+Proof.
+  intros E. unfold grp_ge. apply countb_ext. intros x _.
+  destruct (Qleb (nth x values 0%Q) (nth r values 0%Q)) eqn:H.
+  - apply Qleb_le in H. apply Qleb_le. lra.
+  - apply Qleb_nle in H. apply Qleb_nle. lra.
+Qed.
+
+Lemma grp_ge_le_lo values failed a b : (nth a values 0 < nth b values 0)%Q -> (grp_ge values failed a <= grp_lo values failed b)%nat.
+Proof.
+  intros H. unfold grp_ge, grp_lo. apply countb_mono. intros x _ Hx. apply Qleb_le in Hx. apply Qltb_lt. lra.
+Qed.
+
+(* two valid orders carry the same value at every position *)
+Lemma valid_orders_same_values values failed idx idx' k :
+  valid_order values failed idx -> valid_order values failed idx' -> (k < length idx)%nat ->
+  (nth (nth k idx 0%nat) values 0 == nth (nth k idx' 0%nat) values 0)%Q.
+Proof.
+  intros H H' Hk.
+  assert (Hk' : (k < length idx')%nat) by (rewrite (valid_order_length _ _ _ H'), <- (valid_order_length _ _ _ H); exact Hk).
+  pose proof (position_bounds values failed idx k H Hk) as B.
+  pose proof (position_bounds values failed idx' k H' Hk') as B'.
+  set (a := nth k idx 0%nat) in *. set (b := nth k idx' 0%nat) in *.
+  destruct (Q_dec (nth a values 0%Q) (nth b values 0%Q)) as [[Hlt|Hgt]|E]; [| |exact E].
+  - pose proof (grp_ge_le_lo values failed a b Hlt). lia.
+  - pose proof (grp_ge_le_lo values failed b a Hgt). lia.
+Qed.
+
+(* ---- C04: uniqueness of the staircase ----------------------------------------------------------------------- *)
+Theorem cvar_unique p values failed idx' w' :
+  length failed = length values -> (0 < p)%Q -> (p <= 1)%Q ->
+  valid_order values failed idx' ->
+  (forall k, (k < length idx')%nat -> (nth (nth k idx' 0%nat) w' 0 == stair p (length idx') k)%Q) ->
+  forall k, (k < length idx')%nat ->
+    (nth (nth k idx' 0%nat) values 0 == nth (nth k (ranked failed values) 0%nat) values 0)%Q /\
+    (nth (nth k idx' 0%nat) w' 0 == nth (nth k (ranked failed values) 0%nat) (cvar_weights p values failed) 0)%Q.
+Proof.
+  intros HL Hp Hp1 Hv Hst k Hk.
+  pose proof (ranked_valid_order failed values HL) as Hr.
+  assert (Hlen : length idx' = length (ranked failed values))
+    by (rewrite (valid_order_length _ _ _ Hv), (valid_order_length _ _ _ Hr); reflexivity).
+  split; [apply valid_orders_same_values; assumption|].
+  rewrite Hst by exact Hk. rewrite cvar_weights_spec by assumption.
+  assert (Hk' : (k < length (ranked failed values))%nat) by lia.
+  assert (Hin : In (nth k (ranked failed values) 0%nat) (ranked failed values)) by (apply nth_In; exact Hk').
+  apply (ranked_In failed values _ HL) in Hin as [_ Hf]. unfold succeeded. rewrite Hf. cbn [negb].
+  rewrite rank_nth by assumption. rewrite Hlen, (ranked_length failed values HL). reflexivity.
+Qed.
+
+Definition distinct_values (values : list Q) (failed : list bool) : Prop :=
+  forall r s, In r (successes failed) -> In s (successes failed) -> (nth r values 0 == nth s values 0)%Q -> r = s.
+
+(* with pairwise distinct ranking values the staircase pins the whole vector down *)
+Theorem cvar_unique_distinct p values failed idx' w' :
+  length failed = length values -> (0 < p)%Q -> (p <= 1)%Q ->
+  distinct_values values failed ->
+  valid_order values failed idx' ->
+  (forall k, (k < length idx')%nat -> (nth (nth k idx' 0%nat) w' 0 == stair p (length idx') k)%Q) ->
+  (forall r, ~ In r idx' -> (nth r w' 0 == 0)%Q) ->
+  forall r, (nth r w' 0 == nth r (cvar_weights p values failed) 0)%Q.
+Proof.
+  intros HL Hp Hp1 Hd Hv Hst Hz r.
+  pose proof (ranked_valid_order failed values HL) as Hr.
+  assert (Hlen : length idx' = length (ranked failed values))
+    by (rewrite (valid_order_length _ _ _ Hv), (valid_order_length _ _ _ Hr); reflexivity).
+  destruct (in_dec Nat.eq_dec r idx') as [Hin|Hnot].
+  - apply (In_nth _ _ 0%nat) in Hin as [k [Hk E]].
+    destruct (cvar_unique p values failed idx' w' HL Hp Hp1 Hv Hst k Hk) as [Hval Hw].
+    assert (Esame : nth k idx' 0%nat = nth k (ranked failed values) 0%nat).
+    { apply Hd; [| |exact Hval].
+      - apply (Permutation_in _ (proj1 Hv)). apply nth_In. exact Hk.
+      - apply (Permutation_in _ (proj1 Hr)). apply nth_In. lia. }
+    rewrite <- E. rewrite Hw, <- Esame. reflexivity.
+  - rewrite (Hz r Hnot). symmetry.
+    rewrite cvar_weights_raw by assumption.
+    destruct (succeeded failed r) eqn:Hs; [|reflexivity].
+    exfalso. apply Hnot. apply (Permutation_in _ (Permutation_sym (proj1 Hv))).
+    apply successes_In. apply succeeded_lt. exact Hs.
+Qed.
